@@ -61,7 +61,13 @@ func c11Input(c *Ctx, j int) (src string, opts *distiller.Options, paging bool, 
 		return src, &distiller.Options{OriginalURL: mustURL(pg.PageURL), PaginationAlgo: distiller.PaginationAlgo(j / 4 % 2)}, true, "article+pager"
 	default:
 		md := genMarkupDoc(r)
-		return md.All, &distiller.Options{OriginalURL: mustURL("http://example.com/news/story.html")}, false, "markup"
+		src := md.All
+		if j%8 == 3 {
+			// valid UTF-8 that a parser may normalise: literal soft hyphens, decomposed accents, NBSP
+			src = strings.Replace(src, "</body>", "<h2>U\u0308ber\u00adra\u00adschung cafe\u0301</h2><p>"+strings.Repeat("Stra\u00dfen\u00adbahn re\u0301sume\u0301 na\u00efve \u00a0 co\u00f6perate ", 12)+"</p></body>", 1)
+			return src, &distiller.Options{OriginalURL: mustURL("http://example.com/news/story.html")}, false, "markup+unicode"
+		}
+		return src, &distiller.Options{OriginalURL: mustURL("http://example.com/news/story.html")}, false, "markup"
 	}
 }
 
